@@ -70,7 +70,43 @@ def search_paths(failure):
     return None
 
 
-SEARCHERS = {'inflection': search_inflection, 'paths': search_paths, 'paths_esm': search_paths}
+def run_history(steps, env_dir=None, features=()):
+    import tempfile, shutil, os
+    exe = natives.build_replay(features)
+    d = tempfile.mkdtemp(prefix='vxh')
+    try:
+        req = {'op': 'export_history', 'root': d + '/w', 'env_dir': env_dir, 'steps': steps, 'collect': '.'}
+        p = subprocess.run([exe, json.dumps(req)], capture_output=True, text=True, timeout=120)
+        out = json.loads(p.stdout) if p.stdout.strip() else {'error': p.stderr[-500:]}
+    finally:
+        shutil.rmtree(d, ignore_errors=True)
+    # normalise file keys (the collector walks from `.`)
+    if 'files' in out:
+        out['files'] = {os.path.normpath(k): v for k, v in out['files'].items()}
+    return out
+
+
+def search_export_history(failure):
+    """C06/C05/C17: the final directory contents must depend only on the set of exported types."""
+    kinds = [('export',), ('export_all',), ('export_all_to', './bindings'), ('export_all_to', 'bindings/../bindings/')]
+    types = ['A', 'B']
+    base = run_history([['export_all_to', 'A', 'bindings'], ['export_all_to', 'B', 'bindings']])
+    want = base.get('files', {})
+    for k1 in kinds:
+        for k2 in kinds:
+            for order in (['A', 'B'], ['B', 'A']):
+                steps = [[k1[0], order[0]] + list(k1[1:]), [k2[0], order[1]] + list(k2[1:])]
+                got = run_history(steps)
+                if got.get('files') != want or any(r != 'ok' for r in got.get('results', [])):
+                    return {'request': {'op': 'export_history', 'steps': steps}, 'result': {'files': got.get('files'), 'results': got.get('results'), 'expected_files': want, 'agree': False}, 'kind': 'history'}
+    # repeated export is a no-op
+    got = run_history([['export_all', 'A'], ['export_all', 'B'], ['export', 'A'], ['export_all_to', 'B', './bindings']])
+    if got.get('files') != want:
+        return {'request': {'op': 'export_history', 'steps': 'A,B then A,B again'}, 'result': {'files': got.get('files'), 'expected_files': want, 'agree': False}, 'kind': 'history'}
+    return None
+
+
+SEARCHERS = {'inflection': search_inflection, 'paths': search_paths, 'paths_esm': search_paths, 'export_chain': search_export_history, 'registry': search_export_history}
 
 
 def search(pid, unit, failure, seed):
@@ -82,6 +118,11 @@ def search(pid, unit, failure, seed):
 
 def rerun(rec):
     w = rec['witness']
+    if w.get('kind') == 'history':
+        got = run_history(w['request']['steps']) if isinstance(w['request']['steps'], list) else {}
+        want = w['result'].get('expected_files')
+        print('replayed history on the current tree:', json.dumps(got.get('files'), ensure_ascii=False)[:600])
+        return 1 if got.get('files') != want else 0
     o = batch([w['request']], tuple(w.get('features', ())))[0]
     print('replayed on the current tree:', json.dumps(o, ensure_ascii=False))
     return 1 if not o.get('agree', True) else 0
